@@ -333,7 +333,10 @@ def _line_after(data):
     return line
 
 
-def _auto_case(ops, exit_kind, ansi, pre_spins, interval_s, inflight=False):
+def _auto_case(ops, exit_kind, ansi, pre_spins, interval_s, inflight=False, end=""):
+    end = end or "finished"
+    if end == "EMPTY":
+        end = ""
     clock = Clock(1000)
     with Patched(clock, threads=True):
         StubThread.on_join = None
@@ -354,7 +357,7 @@ def _auto_case(ops, exit_kind, ansi, pre_spins, interval_s, inflight=False):
 
         raised = None
         try:
-            with pi.auto("start", "finished") as p:
+            with pi.auto("start", end) as p:
                 if p is not pi:
                     return False
                 thread = StubThread.instances[-1]
@@ -399,20 +402,33 @@ def _auto_case(ops, exit_kind, ansi, pre_spins, interval_s, inflight=False):
             if ansi:
                 lines = data.split("\n")
                 # the last frame shown is the end message (then the line is finished with a newline)
-                return len(lines) >= 2 and lines[-1] == "" and _frame_ok(_line_after(lines[-2] if "\r" in lines[-2] else "\r\x1b[2K" + lines[-2]), "finished")
-            return data.rstrip("\n").split("\n")[-1] == " finished"
+                if not (len(lines) >= 2 and lines[-1] == "" and _frame_ok(_line_after(lines[-2] if "\r" in lines[-2] else "\r\x1b[2K" + lines[-2]), end)):
+                    return False
+                # the same indicator used by hand afterwards: without a spinner thread advancing is throttled by the interval again
+                pi.start("again")
+                n0 = st.fetch().count("\x1b[2K")
+                pi.advance()
+                pi.advance()
+                if st.fetch().count("\x1b[2K") != n0:
+                    return False
+                clock.t += interval_s
+                pi.advance()
+                pi.advance()
+                return st.fetch().count("\x1b[2K") == n0 + 1
+            return data.endswith("\n\n") and data[: -2].split("\n")[-1] == " " + end
         return True
 
 
-def auto(o1: int, o2: int, o3: int, o4: int, exit_kind: int, ansi: bool, pre_spins: int, interval_s: int, inflight: bool) -> bool:
+def auto(o1: int, o2: int, o3: int, o4: int, exit_kind: int, ansi: bool, pre_spins: int, interval_s: int, inflight: bool, empty_end: bool) -> bool:
     """
     pre: 0 <= o1 < 4 and 0 <= o2 < 4 and 0 <= o3 < 4 and 0 <= o4 < 4 and 0 <= exit_kind <= 2 and 0 <= pre_spins <= 2 and 1 <= interval_s <= 2
     pre: PART["n"] > 3 or o4 == 0
     pre: PART.get("exit") is None or exit_kind == PART["exit"]
+    pre: PART.get("ansi") is None or ansi == PART["ansi"]
     post: _
     """
     ops = [BODY_OPS[conc_int(o, 0, 3)] for o in (o1, o2, o3, o4)][: PART["n"]]
-    return untraced(_auto_case, ops, conc_int(exit_kind, 0, 2), conc_bool(ansi), conc_int(pre_spins, 0, 2), conc_int(interval_s, 1, 2), conc_bool(inflight))
+    return untraced(_auto_case, ops, conc_int(exit_kind, 0, 2), conc_bool(ansi), conc_int(pre_spins, 0, 2), conc_int(interval_s, 1, 2), conc_bool(inflight), "EMPTY" if conc_bool(empty_end) else "")
 
 
 def auto_twin(o1: int, o2: int, o3: int, o4: int, exit_kind: int, ansi: bool, pre_spins: int, interval_s: int) -> bool:
@@ -523,8 +539,9 @@ def conditions(tier):
     conds.append({"name": "manual_twin", "fn": manual_twin, "timeout": t, "expect": "refute", "part": {"ops": "aaa"}, "bounds": "reachability twin"})
     conds.append({"name": "manual_plain", "fn": manual_plain, "timeout": t, "bounds": "plain output: symbolic clock, no redraw by advancing, no control codes"})
     for ex in range(3):
-        conds.append({"name": "auto[exit=%s]" % ["normal", "Exception", "KeyboardInterrupt"][ex], "fn": auto, "timeout": t, "part": {"n": 3 if quick else 4, "exit": ex},
-                      "bounds": "body of %d operations from %r, 0-2 spinner iterations before, interval 1-2 s, ANSI and plain" % (3 if quick else 4, BODY_OPS)})
+        for ansi in (True, False):
+            conds.append({"name": "auto[exit=%s%s]" % (["normal", "Exception", "KeyboardInterrupt"][ex], "" if ansi else ",plain"), "fn": auto, "timeout": t, "part": {"n": 3 if quick else 4, "exit": ex, "ansi": ansi},
+                          "bounds": "body of %d operations from %r, 0-2 spinner iterations before, interval 1-2 s, end message 'finished' or empty, %s output; after a normal exit the same indicator is used by hand (throttled again)" % (3 if quick else 4, BODY_OPS, "ANSI" if ansi else "plain")})
     conds.append({"name": "auto_twin", "fn": auto_twin, "timeout": t, "expect": "refute", "part": {"n": 2, "exit": 2}, "bounds": "reachability twin"})
     conds.append({"name": "torn_frame", "fn": torn_frame, "timeout": t, "bounds": "set_message preempting one spinner redraw after its 1st / 2nd stream write"})
     conds.append({"name": "real_threads", "engine": "native", "fn": real_threads, "timeout": 120, "replay": _replay_real,
